@@ -22,6 +22,7 @@ type Solver struct {
 	Sat     int
 	Unsat   int
 	Unknown int
+	Fallbacks int // unknown answers settled by the fallback solver
 	Errors  int
 	Time    time.Duration
 	// scope transcript (declarations, definitions, assertions of the current
@@ -155,8 +156,41 @@ func (s *Solver) Check(extra string) Result {
 	return r
 }
 
+// Fallback names a second solver binary that is asked, one-shot and with a
+// longer time limit, whenever the incremental solver answers unknown (a soft
+// timeout under load, mostly). Its sat/unsat verdict replaces the unknown; a
+// verdict without a model is only used where no model is needed (unsat, or a
+// feasibility question).
+var Fallback = "z3-new"
+var FallbackTimeoutMs = 120000
+
+func (s *Solver) fallback(extra string, needModel bool) Result {
+	if Fallback == "" || s.Dead {
+		return Unknown
+	}
+	r := OneShot(Fallback, s.Standalone(extra), FallbackTimeoutMs)
+	if r == Unknown || (r == Sat && needModel) {
+		return Unknown
+	}
+	s.Fallbacks++
+	if s.Unknown > 0 {
+		s.Unknown--
+	}
+	return r
+}
+
 // CheckModel is Check, and on sat reads back the values of the named constants.
 func (s *Solver) CheckModel(extra string, names []string) (Result, map[string]uint64) {
+	r, m := s.checkModel(extra, names)
+	if r == Unknown {
+		if r2 := s.fallback(extra, len(names) > 0); r2 != Unknown {
+			return r2, nil
+		}
+	}
+	return r, m
+}
+
+func (s *Solver) checkModel(extra string, names []string) (Result, map[string]uint64) {
 	t0 := time.Now()
 	defer func() {
 		d := time.Since(t0)
